@@ -411,6 +411,62 @@ pub fn run(ctx: &Ctx) {
         },
     );
 
+    // (c4) unescape_with and a custom resolver: only the callback decides about names; its result is
+    // inserted verbatim (no second expansion), numeric references do not go through it
+    let ra: [&str; 7] = ["&", "a", "b", ";", "#", "1", "x"];
+    let rk = ra.len() as u64;
+    let rlen = ctx.tier.pick(6, 7);
+    ctx.layer("custom_resolver", 6, count_upto(rk, rlen), json!({"alphabet": ra, "max_len": rlen, "resolver": {"a": "X&a;Y", "b": "", "ab": "<"}}), |i, acc| {
+        let mut digits = Vec::new();
+        decode_upto(rk, rlen, i, &mut digits);
+        let mut s = String::new();
+        build(&ra, &digits, &mut s);
+        let resolve = |n: &str| -> Option<&'static str> {
+            match n {
+                "a" => Some("X&a;Y"),
+                "b" => Some(""),
+                "ab" => Some("<"),
+                _ => None,
+            }
+        };
+        acc.evaluations += 1;
+        acc.transitions += 1;
+        acc.traces += 1;
+        // reference: same scan as ref_unescape with the custom table
+        let expect: Result<String, ()> = (|| {
+            let mut out = String::new();
+            let mut rest = s.as_str();
+            while let Some(p) = rest.find('&') {
+                out.push_str(&rest[..p]);
+                let after = &rest[p + 1..];
+                let semi = after.find(';').ok_or(())?;
+                let body = &after[..semi];
+                if body.contains('&') {
+                    return Err(());
+                }
+                if body.starts_with('#') {
+                    out.push(ref_entity(body)?);
+                } else {
+                    out.push_str(resolve(body).ok_or(())?);
+                }
+                rest = &after[semi + 1..];
+            }
+            out.push_str(rest);
+            Ok(out)
+        })();
+        let got = guarded(|| unescape_with(&s, resolve).map(|c| c.into_owned()).map_err(|e| format!("{:?}", e)));
+        let ok = match (&got, &expect) {
+            (Ok(Ok(a)), Ok(b)) => a == b,
+            (Ok(Err(_)), Err(())) => true,
+            _ => false,
+        };
+        if !ok {
+            acc.violation((6, i), format!("unescape_with(custom resolver)({:?}) = {:?}, reference says {:?}", s, got, expect), json!({"kind": "string", "s": s}));
+        } else if s.contains('&') {
+            acc.nontrivial(h64(&("custom", &s)));
+        }
+    });
+
     // (d) malformations around 20 values
     let values: [u32; 20] = [
         0, 1, 9, 10, 13, 32, 38, 60, 65, 127, 128, 255, 0x7FF, 0x800, 0xD7FF, 0xD800, 0xDFFF,
